@@ -246,6 +246,11 @@ def handle (l : Line) : Option Verdict :=
   match l.op with
   | "cur" => some (handleCur l)
   | "bat" => some (handleBat l)
+  | "batlate" => some <|
+    -- batches consumed after the last next(): same data as when consumed immediately (harness/ops_file.c)
+    match l.outStr "dg_late", l.outStr "dg_now" with
+    | some a, some b => verdict [] [("late_consumption_same_data", a == b)]
+    | _, _ => if (l.outStr "err").isSome then .ok else .bad "batlate args"
   | _ => none
 
 end Driver.Ops.Cursor
